@@ -547,3 +547,25 @@ const _: () = {
         }
     }
 };
+
+#[cfg(ohkami_verif)]
+#[cfg(feature="__rt_native__")]
+impl Response {
+    /// (verification hook) number of bytes `send` reserves for the head (+ payload)
+    pub fn __verif_declared_len(&self) -> usize {
+        self.status.line().len() + self.headers.size + match &self.content {
+            Content::Payload(bytes) => bytes.len(),
+            _ => 0
+        }
+    }
+
+    /// (verification hook) `(kind, payload bytes)`: 0 = None, 1 = Payload, 2 = other
+    pub fn __verif_content(&self) -> (u8, &[u8]) {
+        match &self.content {
+            Content::None => (0, &[]),
+            Content::Payload(bytes) => (1, &**bytes),
+            #[allow(unreachable_patterns)]
+            _ => (2, &[])
+        }
+    }
+}
